@@ -247,6 +247,53 @@ def real_seeding(ctx, shots):
     return fails
 
 
+def dask_equivalence(ctx, shot_counts):
+    """seeded samples are the same with and without dask, for every number of shots (per-shot seeding must not depend
+    on how shots are grouped into tasks)"""
+    import piquasso as pq
+    try:
+        import dask  # noqa
+    except Exception:
+        return []
+    fails = []
+
+    def passive(seed, use_dask, lossy):
+        with pq.Program() as p:
+            pq.Q(0, 1, 2, 3) | pq.StateVector([1, 1, 1, 0])
+            pq.Q(0, 1) | pq.Beamsplitter(theta=0.6, phi=0.2)
+            pq.Q(1, 2) | pq.Beamsplitter(theta=0.9, phi=0.1)
+            pq.Q(2, 3) | pq.Beamsplitter(theta=0.4, phi=0.7)
+            if lossy:
+                for m in range(4):
+                    pq.Q(m) | pq.Loss(transmissivity=0.8)
+            pq.Q() | pq.ParticleNumberMeasurement()
+        return pq.PassiveSimulator(d=4, config=pq.Config(seed_sequence=seed, use_dask=use_dask)), p
+
+    def gaussian(seed, use_dask, lossy):
+        with pq.Program() as p:
+            pq.Q(0) | pq.Squeezing(r=0.5)
+            pq.Q(1) | pq.Squeezing(r=0.4)
+            pq.Q(0, 1) | pq.Beamsplitter(theta=0.6, phi=0.2)
+            pq.Q(1, 2) | pq.Beamsplitter(theta=0.9, phi=0.1)
+            pq.Q() | pq.ParticleNumberMeasurement()
+        return pq.GaussianSimulator(d=3, config=pq.Config(seed_sequence=seed, use_dask=use_dask, measurement_cutoff=3)), p
+    for name, build, lossy in (("passive", passive, False), ("passive-uniform-loss", passive, True), ("gaussian", gaussian, False)):
+        for shots in shot_counts:
+            seed = ctx.rng.randint(0, 10 ** 6)
+            try:
+                a = canon_samples((lambda sp: sp[0].execute(sp[1], shots=shots).samples)(build(seed, False, lossy)))
+                b = canon_samples((lambda sp: sp[0].execute(sp[1], shots=shots).samples)(build(seed, True, lossy)))
+            except Exception as e:
+                fails.append((f"dask-raise:{name}", f"{name}: {type(e).__name__}: {str(e)[:120]}", {"path": name, "seed": seed, "shots": shots})); break
+            ctx.count(("dask", name, shots), nontrivial=shots > 32)
+            if a != b:
+                k = next(i for i, (x, y) in enumerate(zip(a, b)) if x != y) if len(a) == len(b) else -1
+                fails.append((f"dask-equivalence:{name}", f"{name}: seed {seed}, {shots} shots: samples with use_dask=True differ from use_dask=False (first at shot {k})",
+                              {"path": name, "seed": seed, "shots": shots, "first_difference": k}))
+                break
+    return fails
+
+
 THREAD_SCRIPT = r'''
 import warnings; warnings.filterwarnings("ignore")
 import numpy as np, piquasso as pq, json
@@ -378,6 +425,7 @@ def run(ctx):
             ctx.fail("repro:" + os.path.basename(f), "pinned regression fails: " + p.stdout[-300:], {"script": f, "stdout": p.stdout[-1000:]})
     mism, fails = ownership(ctx, n_seq)
     fails += real_seeding(ctx, shots)
+    fails += dask_equivalence(ctx, (5, 33, 70) if quick else (1, 20, 32, 33, 64, 65, 100, 150))
     fails += thread_env(ctx, [1, 4] if quick else [1, 2, 4, 16])
     binary, err = build_native()
     if binary is None:
